@@ -1,0 +1,12 @@
+//go:build verif
+
+// Contracts for gvc (/verif). Comment-only: this file adds no declarations.
+
+package platform
+
+// C17 sweep: zero-annotation panic-freedom obligations for the module's functions,
+// for every argument value.
+//@ func hostnameOpt.SetDefaultOptions
+//@   props C17
+//@ func hostname
+//@   props C17
